@@ -72,7 +72,7 @@ class C01(core.Check):
             'handle_oserror / safe_io, outcome compared with the model. search cases (model term is the constant '
             '"no host exception"): generated statements over all statement/function keywords with boundary '
             'arguments, token soup, generated programs, mutated lines of the recorded GW-BASIC corpus, random '
-            'bytes LOADed as tokenised/protected/ASCII files. non-trivial = at least one statement executed without '
+            'bytes LOADed as tokenised/protected/ASCII files, multi-step error-trap scenarios (program arms ON ERROR, direct-mode faults, unusual handler statements, follow-up commands). non-trivial = at least one statement executed without '
             'BASIC error; distinct by hash')
 
     def __init__(self, tier, seed):
@@ -136,6 +136,28 @@ class C01(core.Check):
             return s if rng.random() < 0.5 else s.lstrip('0123456789 ')
         return ''.join(rng.choice(SOUP) for _ in range(rng.randrange(1, 12)))
 
+    HANDLER = ['STOP', 'END', 'RESUME', 'RESUME NEXT', 'RESUME 30', 'PRINT ERR;ERL', 'ERROR 5', 'ON ERROR GOTO 0', 'RETURN',
+               'CLEAR', 'NEW', 'RUN', 'GOTO 20', 'CONT', 'ERROR ERR', 'PRINT 1/0', 'LIST', 'DELETE 100', 'RENUM', 'ON ERROR GOTO 100',
+               'A$=A$+A$', 'GOSUB 100', 'CHAIN "X"', 'LOAD "X"', 'WEND', 'NEXT', 'X=ERL/0', 'SYSTEM1']
+    FAULT = ['ERROR 5', 'ERROR 255', 'ERROR 0', 'PRINT 1/0', 'A=SQR(-1)', 'DIM A(-1)', 'GOTO 9999', 'NEXT', 'RETURN', 'WEND',
+             'X$=MID$("",0)', 'A%=32768', 'PRINT CHR$(256)', 'OPEN "NOSUCH" FOR INPUT AS 1', 'READ Q', 'RESUME', 'FIELD #1,1 AS A$',
+             'PRINT USING "";1', 'LOCATE 99', 'KILL "NOSUCH"', 'PRINT 1E38*1E38', 'DEF FNA(X)=X', 'X=FNQ(1)', 'CONT', 'STOP']
+    AFTER = ['CONT', 'RUN', 'LIST', 'PRINT ERR;ERL', 'RESUME', 'RESUME NEXT', 'EDIT 20', 'NEW', 'RENUM', 'GOTO 100', 'RETURN', 'STOP']
+
+    def scenario(self):
+        """multi-step histories around error traps: a program arms ON ERROR (and maybe ends with the trap armed), direct-mode
+        statements fault, the handler does something unusual, then more direct-mode commands"""
+        rng = self.rng
+        prog = ['10 ON ERROR GOTO 100', '20 %s' % rng.choice(self.FAULT + ['PRINT "ok"', 'PRINT "ok"']),
+                '30 %s' % rng.choice(['END', 'PRINT "x"', 'STOP', 'GOTO 20', 'RETURN']),
+                '100 %s' % rng.choice(self.HANDLER), '110 %s' % rng.choice(self.HANDLER)]
+        if rng.random() < 0.3:
+            prog.insert(1, '15 ON KEY(1) GOSUB 100:KEY(1) ON')
+        lines = prog + ['RUN']
+        for _ in range(rng.randrange(1, 4)):
+            lines.append(rng.choice(self.FAULT if rng.random() < 0.6 else self.AFTER))
+        return lines
+
     def gen_cases(self, n):
         rng = self.rng
         if self._corpus is None:
@@ -150,6 +172,9 @@ class C01(core.Check):
                 out.append(rng.choice([{'k': 'he', 'e': e}, {'k': 'sio', 'err': rng.choice([57, 24, 25]), 'e': e},
                                        {'k': 'fs', 'dr': rng.randrange(2), 'con': rng.randrange(2), 'e': e}]))
                 hist['funnel'] += 1
+            elif r < 0.2:
+                out.append({'k': 'prog', 'lines': self.scenario(), 'default': rng.random() < 0.5})
+                hist['scenario'] = hist.get('scenario', 0) + 1
             elif r < 0.6:
                 out.append({'k': 'prog', 'lines': [self.stmt() for _ in range(rng.randrange(1, 5))], 'default': rng.random() < 0.5})
                 hist['direct'] += 1
@@ -176,7 +201,7 @@ class C01(core.Check):
         return {10: lambda: error.BASICError(a), 11: lambda: error.Break(), 12: lambda: error.Exit(), 13: lambda: error.Reset(),
                 1: lambda: ValueError('x'), 2: lambda: FloatingPointError('x'), 3: lambda: OverflowError('x'),
                 4: lambda: ZeroDivisionError('x'), 5: lambda: OSError(a, 'x'),
-                9: lambda: [KeyError, TypeError, IndexError, AttributeError, RuntimeError, AssertionError, UnicodeError,
+                9: lambda: [KeyError, TypeError, IndexError, AttributeError, RuntimeError, AssertionError, EOFError,
                             NotImplementedError, StopIteration][(a - 1) % 9]('x')}[c]()
 
     def enc_exc(self, x, orig):
